@@ -77,6 +77,7 @@ def cond_pool(X, Y):
         (("lt", c(X), ("+", n, I(1))), 0),
         (("and", ("le", I(1), I(2)), ("le", I(2), I(3))), 0),
         (("ifun", "G", n), 0),
+        (p(r(X)), 0),  # fluent nested in a fluent argument
     ]
 
 
@@ -138,6 +139,8 @@ INV_POOL = [
     (NOT(("and", b, p(o1))), 0),
     (("exists", VT, NOT(p(vT))), 0),
     (("lt", c(o1), I(2)), 0),
+    (NOT(p(r(o2))), 1),  # invariant over a fluent nested in a fluent argument
+    (("forall", VT, ("or", NOT(p(r(vT))), st(vT))), 0),
 ]
 
 INIT_POOL = [
